@@ -23,7 +23,7 @@ WithEnv(A, e) == {[m EXCEPT !.env = e] : m \in A}
 
 (* ---- single field mutations ---- *)
 MutRound(m)  == {[m EXCEPT !.r = x] : x \in {0, 5, 9, 12, 13, RBIG, R63, RMAX}}
-MutSlot(m)   == {[m EXCEPT !.h = x] : x \in {1, -34, -35, ZERO, H63, HMAX}}
+MutSlot(m)   == {[m EXCEPT !.h = x] : x \in {1, -34, -35, ZERO, H62, H63, HMAX}}
 MutSigners(m) == {[m EXCEPT !.sg = x] : x \in {<<>>, <<0>>, <<9>>, <<3>>, <<1, 2>>, <<2, 1>>, <<1, 1>>}}
 MutBody(m)   == {[m EXCEPT !.mt = 9], [m EXCEPT !.sf = "zero"], [m EXCEPT !.body = "empty"], [m EXCEPT !.body = "garbage"],
                  [m EXCEPT !.raw = "empty"], [m EXCEPT !.raw = "junk"],
@@ -78,7 +78,7 @@ AlphaDecidedSmall == {Dec(0, 0, 1, Q3, 1), Prep(0, 0, 1, 1)} \cup {Dec(0, 0, 1, 
 PSigRoles == {<<0, 0>>, <<1, 2>>, <<2, 1>>, <<2, 0>>, <<5, 4>>}            \* <<role, partial type>>
 PSigBase == {PSig(x[1], x[2], h, s) : x \in PSigRoles, h \in {-1, 0}, s \in {1, 2}}
             \cup {Prep(0, h, 1, 1) : h \in {-1, 0}} \cup {Prep(2, h, 1, 1) : h \in {-1, 0}}
-PSigMutOf(m) == {[m EXCEPT !.h = x] : x \in {1, 40, -3, -4, -34, -35, ZERO, H63, HMAX}}
+PSigMutOf(m) == {[m EXCEPT !.h = x] : x \in {1, 40, -3, -4, -34, -35, ZERO, H62, H63, HMAX}}
                 \cup {[m EXCEPT !.sg = <<x>>] : x \in {0, 9}}
                 \cup {[m EXCEPT !.pm = x] : x \in {"none", "dup", "wsigner", "zsig", "two"}}
                 \cup {[m EXCEPT !.pt = x] : x \in {0, 1, 2, 3, 4, 5, 9}}
@@ -109,8 +109,25 @@ TimesTime == {T(0, 1), T(0, 9), T(1, 5), T(3, 1)}
 AlphaCore == {Prop(0, 0, 1, 1, 1), Prop(0, 0, 1, 1, 2), Prop(0, 0, 2, 2, 1), Prep(0, 0, 1, 1), Prep(0, 0, 2, 1), Prep(0, -1, 1, 1),
               Prep(0, 0, 1, 2), Comm(0, 0, 1, 1), Comm(0, 0, 2, 1), RC(0, 0, 2, 1, 1), RC(0, 0, 2, 1, 0), RC(0, 0, 2, 2, 2),
               Dec(0, 0, 1, Q3, 1), Dec(0, 0, 2, Q3, 2), Dec(0, -1, 1, QAll, 0), Dec(0, 0, 1, Q3b, 2),
-              PSig(0, 0, 0, 1), PSig(0, 0, -1, 1), PSig(0, 0, 1, 1), PSig(0, 0, HMAX, 2), PSig(0, 0, 0, 2)}
+              PSig(0, 0, 0, 1), PSig(0, 0, -1, 1), PSig(0, 0, 1, 1), PSig(0, 0, HMAX, 2), PSig(0, 0, 0, 2),
+              Prep(0, H62, 1, 1), Prop(0, H62, 1, 1, 1), Dec(0, H62, 1, Q3, 1)}
 TimesCore == {T(0, 3), T(1, 1)}
+
+(* ---- attack alphabet: the core plus one message per guard that a weakened spec would let through ---- *)
+AlphaAttack == AlphaCore \cup
+    {Prop(0, 0, 1, 2, 1), Prop(0, 0, 1, 3, 1),                                        \* not the leader
+     Dec(0, 0, 1, <<2, 1, 3>>, 1), Dec(0, 0, 1, <<1, 1, 2>>, 1), Dec(0, 0, 1, <<1, 2, 2>>, 1), Dec(0, 0, 1, <<0, 1, 2>>, 1),
+     Dec(0, 0, 1, <<1, 2, 9>>, 1), Dec(0, 0, 1, <<1, 2>>, 1), [Dec(0, 0, 1, Q3, 1) EXCEPT !.mt = 1], [Prep(0, 0, 1, 1) EXCEPT !.sg = <<0>>],
+     [Prep(0, 0, 1, 1) EXCEPT !.sg = <<9>>], [Prop(0, 0, 1, 1, 1) EXCEPT !.root = 2], [Dec(0, 0, 1, Q3, 1) EXCEPT !.root = 2],
+     Prep(0, 1, 1, 1), Prep(0, -35, 1, 1), Prep(0, 0, 13, 1), Prep(0, -34, 13, 1), Prep(0, 0, 4, 1), Prep(0, 0, 1, 3), Prep(0, -1, 1, 3),
+     [Prep(0, 0, 1, 1) EXCEPT !.val = "liquidated"], [Prep(0, 0, 1, 1) EXCEPT !.val = "unknown"], [Prep(0, 0, 1, 1) EXCEPT !.val = "exited"],
+     [Prep(0, 0, 1, 1) EXCEPT !.topic = "wrong"], [PSig(0, 0, 0, 1) EXCEPT !.sg = <<0>>], [PSig(0, 0, 0, 1) EXCEPT !.sg = <<9>>]}
+AlphaAttackSigned == WithEnv({Prep(0, 0, 1, 1), Prop(0, 0, 1, 1, 1), PSig(0, 0, 0, 1)}, "good")
+                     \cup WithEnv({Prep(0, 0, 1, 1), Prop(0, 0, 1, 1, 1), PSig(0, 0, 0, 1)}, "badsig")
+                     \cup WithEnv({Prep(0, 0, 1, 1)}, "unkop")
+AlphaSim == AlphaCore \cup ConsBase({0}, {1, 2, 3}, {1, 2}) \cup {Dec(0, 0, r, sg, 1) : r \in {1, 2, 3}, sg \in {Q3, QAll}}
+            \cup {Prep(0, 1, 1, s) : s \in {1, 2}} \cup {PSig(0, 0, h, s) : h \in {0, 1}, s \in {1, 2, 3}}
+TimesSim == {T(0, 1), T(0, 5), T(1, 3)}
 
 (* ---- N = 7 ---- *)
 AlphaSeven == DecBase \cup DecMut \cup {Prop(0, h, r, s, 1) : h \in {-1, 0}, r \in {1, 2}, s \in {1, 2, 7}}
@@ -121,4 +138,5 @@ TimeSeq == SetToSeq(Times)
 DumpInit == Init /\ JsonSerialize("alphabet.json", [alpha |-> AlphaSeq, times |-> TimeSeq])
 DumpNext == FALSE /\ UNCHANGED vars
 DumpSpec == DumpInit /\ [][DumpNext]_vars
+SpecD == DumpInit /\ [][Next]_vars          \* Spec that also exports its alphabet
 =============================================================================
